@@ -138,10 +138,21 @@ def run(ctx, exe, env, script_lines, idx=0, timeout=60):
         msgs.append((MSG_NAMES.get(typ, str(typ)), data[off + 8: off + 8 + ln]))
         off += 8 + ln
     # unlink this run's shm files
+    # unlink this run's shm files: every buffer of its session, also the pre-allocated ones that
+    # were never announced (libmcount prepares two per task)
+    sids = set()
     for m in msgs:
         if m[0] == "REC_START":
+            name = m[1].decode(errors="replace").rstrip("\0")
+            mm = re.match(r"/uftrace-([0-9a-f]+)-", name)
+            if mm:
+                sids.add(mm.group(1))
+        if m[0] == "SESSION" and len(m[1]) >= 32:
+            sids.add(m[1][16:32].decode(errors="replace"))
+    for sid in sids:
+        for f in glob.glob("/dev/shm/uftrace-%s-*" % sid):
             try:
-                os.unlink("/dev/shm" + m[1].decode(errors="replace").rstrip("\0"))
+                os.unlink(f)
             except OSError:
                 pass
     lines = out.split("\n")
